@@ -9,8 +9,6 @@ use crate::l0_prim::*;
 use crate::l1_choice::*;
 use crate::l1_limb::*;
 use crate::l2_core::*;
-use vstd::std_specs::bits::*;
-use vstd::bits::*;
 verus! {
 
 //@@ subst \b(Self|Uint)::(ZERO|ONE|MAX|BITS|LOG2_BITS)\b(?!\() => \1::\2()
@@ -119,10 +117,10 @@ proof fn lemma_top_bounds(l: int, a: int, e: nat, b: nat)
     let pe = p2(e); let lo = p2((b - 1) as nat); let hi = p2(b);
     lemma_pow2_adds(e, b); lemma_pow2_adds(e, (b - 1) as nat); lemma_pow2_pos(e);
     assert(e + (b - 1) as nat == (e + b - 1) as nat);
-    assert(lo * pe == p2((e + b - 1) as nat));
-    assert(hi * pe == p2(e + b));
-    assert(a * pe >= lo * pe) by (nonlinear_arith) requires a >= lo, pe > 0;
-    assert((a + 1) * pe <= hi * pe) by (nonlinear_arith) requires a + 1 <= hi, pe > 0;
+    assert(pe * lo == p2((e + b - 1) as nat));
+    assert(pe * hi == p2(e + b));
+    assert(a * pe >= pe * lo) by (nonlinear_arith) requires a >= lo, pe > 0;
+    assert((a + 1) * pe <= pe * hi) by (nonlinear_arith) requires a + 1 <= hi, pe > 0;
     assert((a + 1) * pe == a * pe + pe) by (nonlinear_arith);
 }
 
@@ -273,7 +271,7 @@ pub const fn bit(limbs: &[Limb], index: u32) -> (ret__: ConstChoice)
     ConstChoice::from_word_lsb(result >> index_in_limb)
 }
 //@@ end
-//@@ fn src/uint/bits.rs | - | bit_vartime | body | props C05 C11
+//@@ fn src/uint/bits.rs | - | bit_vartime | body | props C05 C11 C15
 pub const fn bit_vartime(limbs: &[Limb], index: u32) -> (ret__: bool)
 //@+
     ensures ret__ == ((index as int) < 64 * limbs@.len() && (val(limbs@, limbs@.len()) / p2(index as nat)) % 2 == 1)
@@ -350,7 +348,7 @@ pub const fn leading_zeros(limbs: &[Limb]) -> (ret__: u32)
     count
 }
 //@@ end
-//@@ fn src/uint/bits.rs | - | bits_vartime | body | props C05 C11
+//@@ fn src/uint/bits.rs | - | bits_vartime | body | props C05 C11 C15
 pub const fn bits_vartime(limbs: &[Limb]) -> (ret__: u32)
 //@+
     requires 1 <= limbs@.len() < 0x400_0000
@@ -431,7 +429,7 @@ pub const fn trailing_zeros(limbs: &[Limb]) -> (ret__: u32)
     count
 }
 //@@ end
-//@@ fn src/uint/bits.rs | - | trailing_zeros_vartime | body | props C05 C11
+//@@ fn src/uint/bits.rs | - | trailing_zeros_vartime | body | props C05 C11 C15
 pub const fn trailing_zeros_vartime(limbs: &[Limb]) -> (ret__: u32)
 //@+
     requires limbs@.len() < 0x400_0000
@@ -520,7 +518,7 @@ pub const fn trailing_ones(limbs: &[Limb]) -> (ret__: u32)
     count
 }
 //@@ end
-//@@ fn src/uint/bits.rs | - | trailing_ones_vartime | body | props C05 C11
+//@@ fn src/uint/bits.rs | - | trailing_ones_vartime | body | props C05 C11 C15
 pub const fn trailing_ones_vartime(limbs: &[Limb]) -> (ret__: u32)
 //@+
     requires limbs@.len() < 0x400_0000
@@ -575,7 +573,7 @@ pub const fn bit(&self, index: u32) -> (ret__: ConstChoice)
     }
 }
 //@@ end
-//@@ fn src/uint/bits.rs | impl<const LIMBS: usize> Uint<LIMBS> | bit_vartime | body | props C05 C11
+//@@ fn src/uint/bits.rs | impl<const LIMBS: usize> Uint<LIMBS> | bit_vartime | body | props C05 C11 C15
 impl<const LIMBS: usize> Uint<LIMBS> {
 pub const fn bit_vartime(&self, index: u32) -> (ret__: bool)
 //@+
@@ -599,7 +597,7 @@ pub const fn leading_zeros(&self) -> (ret__: u32)
     }
 }
 //@@ end
-//@@ fn src/uint/bits.rs | impl<const LIMBS: usize> Uint<LIMBS> | bits_vartime | body | props C05 C11
+//@@ fn src/uint/bits.rs | impl<const LIMBS: usize> Uint<LIMBS> | bits_vartime | body | props C05 C11 C15
 impl<const LIMBS: usize> Uint<LIMBS> {
 pub const fn bits_vartime(&self) -> (ret__: u32)
 //@+
@@ -623,7 +621,7 @@ pub const fn bits(&self) -> (ret__: u32)
     }
 }
 //@@ end
-//@@ fn src/uint/bits.rs | impl<const LIMBS: usize> Uint<LIMBS> | leading_zeros_vartime | body | props C05 C11
+//@@ fn src/uint/bits.rs | impl<const LIMBS: usize> Uint<LIMBS> | leading_zeros_vartime | body | props C05 C11 C15
 impl<const LIMBS: usize> Uint<LIMBS> {
 pub const fn leading_zeros_vartime(&self) -> (ret__: u32)
 //@+
@@ -647,7 +645,7 @@ pub const fn trailing_zeros(&self) -> (ret__: u32)
     }
 }
 //@@ end
-//@@ fn src/uint/bits.rs | impl<const LIMBS: usize> Uint<LIMBS> | trailing_zeros_vartime | body | props C05 C11
+//@@ fn src/uint/bits.rs | impl<const LIMBS: usize> Uint<LIMBS> | trailing_zeros_vartime | body | props C05 C11 C15
 impl<const LIMBS: usize> Uint<LIMBS> {
 pub const fn trailing_zeros_vartime(&self) -> (ret__: u32)
 //@+
@@ -671,7 +669,7 @@ pub const fn trailing_ones(&self) -> (ret__: u32)
     }
 }
 //@@ end
-//@@ fn src/uint/bits.rs | impl<const LIMBS: usize> Uint<LIMBS> | trailing_ones_vartime | body | props C05 C11
+//@@ fn src/uint/bits.rs | impl<const LIMBS: usize> Uint<LIMBS> | trailing_ones_vartime | body | props C05 C11 C15
 impl<const LIMBS: usize> Uint<LIMBS> {
 pub const fn trailing_ones_vartime(&self) -> (ret__: u32)
 //@+
@@ -734,7 +732,7 @@ pub const fn set_bit(self, index: u32, bit_value: ConstChoice) -> (ret__: Self)
     }
 }
 //@@ end
-//@@ fn src/uint/bits.rs | impl<const LIMBS: usize> Uint<LIMBS> | set_bit_vartime | body | props C05 C11
+//@@ fn src/uint/bits.rs | impl<const LIMBS: usize> Uint<LIMBS> | set_bit_vartime | body | props C05 C11 C15
 impl<const LIMBS: usize> Uint<LIMBS> {
 pub const fn set_bit_vartime(self, index: u32, bit_value: bool) -> (ret__: Self)
 //@+
